@@ -41,7 +41,7 @@ func TestZsimC04Engine(t *testing.T) {
 		Run:      c04EngineRun,
 		Horizon:  10 * 24 * time.Hour,
 		MaxSteps: 400000,
-		Rule:     "an engine with one JWT-protected route (with or without previous secret), one signature-protected route (strict or not, key file generated into the scratch directory) and one open route; requests with tokens signed by the current / previous / wrong secret and valid or expired, signed requests correct or tampered or outside the tolerance; oracle = handler ran iff the reference predicate holds, 401 / 403 otherwise; non-trivial = at least one admitted and one rejected request; distinct = distinct event-log fingerprint",
+		Rule:     "an engine with two JWT-protected route groups sharing the current secret but not the previous one (bound in either order), one signature-protected route (strict or not, key file generated into the scratch directory) and one open route; requests with tokens signed by the current / previous / wrong secret and valid or expired, signed requests correct or tampered or outside the tolerance; oracle = handler ran iff the reference predicate holds, 401 / 403 otherwise; non-trivial = at least one admitted and one rejected request; distinct = distinct event-log fingerprint",
 		Real:     []string{"api engine.bindRoutes / appendAuthHandler / signatureVerifier + default chain", "api/router", "api/handler Authorize + ContentSecurityHandler", "api/token", "api/internal/security", "lib/codec"},
 		Stub:     []string{"clients (independent token / signature construction)", "route handlers", "simulated clock"},
 	})
@@ -89,7 +89,21 @@ func c04EngineRun(r *zsim.Run) {
 		}
 	}
 	ng := newEngine(Config{Host: "sim", Port: 1, MaxConns: 100, MaxBytes: 1 << 20, Timeout: 3000})
-	ng.addRoutes(featuredRoutes{jwt: jwtSetting{enabled: true, secret: cur, prevSecret: prev}, routes: []Route{{Method: http.MethodGet, Path: "/jwt", Handler: mk("jwt")}}})
+	// a second group protected by the same current secret but another previous secret (or none): each group keeps
+	// its own pair, whatever the order in which they are bound
+	prev2 := zsim.Pick(o, "", "engine-previous-2", "engine-previous")
+	if prev2 == prev {
+		prev2 = map[bool]string{true: "engine-previous-2", false: ""}[prev == ""]
+	}
+	g1 := featuredRoutes{jwt: jwtSetting{enabled: true, secret: cur, prevSecret: prev}, routes: []Route{{Method: http.MethodGet, Path: "/jwt", Handler: mk("jwt")}}}
+	g2 := featuredRoutes{jwt: jwtSetting{enabled: true, secret: cur, prevSecret: prev2}, routes: []Route{{Method: http.MethodGet, Path: "/jwt2", Handler: mk("jwt2")}}}
+	if o.Intn(2) == 0 {
+		ng.addRoutes(g1)
+		ng.addRoutes(g2)
+	} else {
+		ng.addRoutes(g2)
+		ng.addRoutes(g1)
+	}
 	ng.addRoutes(featuredRoutes{signature: signatureSetting{enabled: true, SignatureConfig: SignatureConfig{Strict: strict, Expire: tolerance, PrivateKeys: []PrivateKeyConfig{{Fingerprint: "fp1", KeyFile: keyFile}}}}, routes: []Route{{Method: http.MethodPost, Path: "/signed", Handler: mk("signed")}}})
 	ng.addRoutes(featuredRoutes{routes: []Route{{Method: http.MethodGet, Path: "/open", Handler: mk("open")}}})
 	rt := router.NewRouter()
@@ -115,8 +129,12 @@ func c04EngineRun(r *zsim.Run) {
 			req = httptest.NewRequest(http.MethodGet, "http://sim/open", nil)
 		case 1, 2:
 			route = "jwt"
-			secret := zsim.Pick(o, cur, prev, "wrong", cur)
-			ok := secret == cur || (prev != "" && secret == prev)
+			groupPrev := prev
+			if o.Intn(2) == 0 {
+				route, groupPrev = "jwt2", prev2
+			}
+			secret := zsim.Pick(o, cur, prev, "wrong", cur, prev2, "engine-previous", "engine-previous-2")
+			ok := secret == cur || (groupPrev != "" && secret == groupPrev)
 			if secret == "" {
 				secret = "none"
 			}
@@ -125,7 +143,7 @@ func c04EngineRun(r *zsim.Run) {
 				exp = now // expired half a second ago
 				ok = false
 			}
-			req = httptest.NewRequest(http.MethodGet, "http://sim/jwt", nil)
+			req = httptest.NewRequest(http.MethodGet, "http://sim/"+route, nil)
 			if o.Intn(6) != 0 {
 				req.Header.Set("Authorization", "Bearer "+c04eToken(secret, map[string]any{"exp": exp, "uid": i}))
 			} else {
@@ -136,7 +154,8 @@ func c04EngineRun(r *zsim.Run) {
 			route = "signed"
 			body := fmt.Sprintf(`{"n":%d}`, i)
 			tol := int64(tolerance / time.Second)
-			off := zsim.Pick(o, int64(0), 0, tol-2, tol+2, -tol-2)
+			// (far-away timestamps too: offsets that overflow when turned into nanoseconds)
+			off := zsim.Pick(o, int64(0), 0, tol-2, tol+2, -tol-2, 0, 1<<55, -(1 << 55), 1<<56+3, 1<<34)
 			ts := fmt.Sprint(now + off)
 			key := []byte("engine-hmac-" + id)
 			sum := sha256.Sum256([]byte(body))
